@@ -81,6 +81,17 @@ CHECKS = {
              "local anomaly scores; clauses re-checked on the implementation's output in Coq.",
         note=BASE_TB + "Model/Cbs.v hand-written; candidate intervals share the SBS float front-end oracle. No axioms.",
         ref="DESIGN.md section 4 / C09"),
+    "C04": dict(
+        technique="Coq proof (well-formedness corollaries of the search-loop invariants, for arbitrary score functions) + verified checkers applied to the real detectors' outputs",
+        text="Theorems in coq/Properties/C04.v, for ARBITRARY score functions (no split hypothesis): PELT and seeded binary segmentation changepoints are strictly increasing, lie "
+             "in [1, n-1], leave every segment incl. the first and last >= min_segment_length; moving-window changepoints are strictly increasing in [bandwidth, n-bandwidth] "
+             "(threshold >= 0); CAPA / MVCAPA anomalies are sorted, pairwise disjoint, non-empty, inside [0,n], collective ones of length in [min,max]_segment_length and point ones "
+             "of length 1, with ignore_point_anomalies removing exactly the latter; circular-binary-segmentation anomalies are sorted, disjoint, of length >= min_segment_length and "
+             "strictly inside the data; MVCAPA column lists are non-empty, distinct and < p; labels are 1..K on a 0..K-1 range index; the boolean checkers used on the implementation "
+             "are proved sound. Tie: all seven real detectors (built-in scorers on hostile data at boundary settings, and PELT/CAPA/MVCAPA on arbitrary integer tables) are run and "
+             "their predict outputs checked by those verified checkers inside Coq plus frame-structure clauses; model = implementation equality is established by C02/C03/C07/C08/C09.",
+        note=BASE_TB + "No axioms. The frame structure (pandas dtypes, IntervalIndex closedness) is checked in Python.",
+        ref="DESIGN.md section 4 / C04"),
     "C05": dict(
         technique="Coq proof (pointwise label characterisation and exact round trips of the index-blind converter models) + model-vs-code correspondence over index kinds",
         text="Theorems in coq/Properties/C05.v: for every valid sparse output (incl. adjacent, length-1 and end-touching events) the dense labels are the segment number / "
